@@ -359,6 +359,37 @@ def _m_hex(it, v, args, kwargs, node):
     return seqops.opaque(it, 'str', v.length().scale(2), ('hexlify', v), deps=(v,), tags=value_tags(v))
 
 
+def _m_replace(it, v, args, kwargs, node):
+    """s.replace(old, new, 1) where `old` is a non-empty slice s[a:b] of the very string it is applied to, s unconstrained:
+    the first occurrence is at a - or earlier (e.g. when all characters are equal), so two cases."""
+    old = it.resolve(args[0]) if args else None
+    new = it.resolve(args[1]) if len(args) > 1 else None
+    cnt = it.as_lin(args[2]) if len(args) > 2 else None
+    whole = len(v.segs) == 1 and isinstance(v.segs[0], Sl) and it.store.decide_eq0(v.segs[0].lo) is True and \
+        it.store.decide_eq0(v.segs[0].hi - v.segs[0].src.length) is True
+    if whole and isinstance(old, SeqV) and isinstance(new, SeqV) and len(old.segs) == 1 and isinstance(old.segs[0], Sl) \
+            and old.segs[0].src is v.segs[0].src and cnt is not None and it.store.decide_eq0(cnt - 1) is True \
+            and it.store.prove_ge0(old.length() - 1) and not getattr(v.segs[0].src, 'charset', None) in ('literal',) \
+            and not it.nofork:
+        src = v.segs[0].src
+        a, b = old.segs[0].lo, old.segs[0].hi
+        n = src.length
+        if it.choose(2, 'replace: first occurrence at its own position / earlier') in (0, None):
+            i = a
+        else:
+            sym = it.fresh('occurrence')
+            it.store.declare(sym, 0, None, info='index of an earlier occurrence of the replaced slice')
+            it.store.assume_ge0(a - 1 - Lin.sym(sym))
+            i = Lin.sym(sym)
+        m = b - a
+        head = seqops.slice_seq(it, v, Lin.const(0), i)
+        tail = seqops.slice_seq(it, v, i + m, n)
+        r = seqops.concat(it, seqops.concat(it, head, new), tail)
+        it.event('replace-own-slice', node, value=v, old=old, index=i)
+        return r
+    return SymV(it.fresh('replace'), 'any', origin=('method', v, 'replace', args), tags=value_tags(v))
+
+
 def _m_generic_seq(name):
     def f(it, v, args, kwargs, node):
         return SymV(it.fresh(name), 'any', origin=('method', v, name, args), tags=value_tags(v))
@@ -372,7 +403,7 @@ SEQ_METHODS = {
     'upper': _m_upper, 'lower': _m_lower, 'rstrip': _m_strip('rstrip'), 'lstrip': _m_strip('lstrip'),
     'strip': _m_strip('strip'), 'ljust': _m_just('<'), 'rjust': _m_just('>'), 'zfill': _m_zfill,
     'format': _m_format, 'translate': _m_translate, 'join': _m_join, 'hex': _m_hex, 'split': _m_generic_seq('split'),
-    'replace': _m_generic_seq('replace'), 'find': _m_generic_seq('find'), 'count': _m_generic_seq('count'),
+    'replace': _m_replace, 'find': _m_generic_seq('find'), 'count': _m_generic_seq('count'),
     'splitlines': _m_generic_seq('splitlines'), 'title': _m_generic_seq('title'),
 }
 
